@@ -232,10 +232,10 @@ fn lattice(run: &mut Run, dicts: &[DictCase], tier: Tier) {
     let d = dicts.iter().find(|d| d.name.starts_with("model")).unwrap();
     let dl = d.model.content.len();
     let mut cases = vec![];
-    for p in 0..=tier.pick(8usize, 24) {
+    for p in 0..=tier.pick(16usize, 24) {
         for ll in [0usize, 2] {
             for r in 1..=dl + 1 {
-                for ml in 3..=tier.pick(12usize, 40) {
+                for ml in 3..=tier.pick(20usize, 40) {
                     cases.push((p, ll, r, ml));
                 }
             }
@@ -443,7 +443,7 @@ fn histories(run: &mut Run, dicts: &[DictCase], tier: Tier) {
         f[6] = 0xEE; // another dictionary id
         f
     };
-    let depth = tier.pick(3u32, 5);
+    let depth = tier.pick(4u32, 5);
     let total = items.len().pow(depth);
     let decode_one = |dec: &mut FrameDecoder, it: It| -> String {
         let (frame, limit): (&[u8], usize) = match it {
@@ -526,7 +526,7 @@ pub fn main(tier: Tier, replay: Option<Value>) -> i32 {
     window_edge(&mut run, &dicts);
     histories(&mut run, &dicts, tier);
     run.set("exhaustive", false);
-    run.set("rule", "3 ZDICT-trained and 2 model-built dictionaries; libzstd frames over levels x windowLog x dictID flag x 6 inputs decoded by id and by force_dict, and refused with the right id when the dictionary is missing; model frames whose first block is treeless / uses Repeat for each table / every repeat-offset code so that the dictionary's tables and offsets are the starting state (each validated by libzstd with the dictionary); the complete seam lattice (output position 0..=8 x literal run {0,2} x reach 1..=dict_len+1 x match length 3..=12/20) incl. the one-past offset that must be rejected; dictionary reach at the window edge (first match spilling 0..900 bytes from the dictionary into the output, a second match into the dictionary at output position W-2 / W-1 / W of a 1 KiB window); every history of 3/4 items over {frame with dictionary A, frame with dictionary B, plain frame, plain frame that needs leaked tables, plain frame that needs leaked content, unregistered id} on one decoder vs fresh decoders");
+    run.set("rule", "3 ZDICT-trained and 2 model-built dictionaries; libzstd frames over levels x windowLog x dictID flag x 6 inputs decoded by id and by force_dict, and refused with the right id when the dictionary is missing; model frames whose first block is treeless / uses Repeat for each table / every repeat-offset code so that the dictionary's tables and offsets are the starting state (each validated by libzstd with the dictionary); the complete seam lattice (output position 0..=16/24 x literal run {0,2} x reach 1..=dict_len+1 x match length 3..=20/40) incl. the one-past offset that must be rejected; dictionary reach at the window edge (first match spilling 0..900 bytes from the dictionary into the output, a second match into the dictionary at output position W-2 / W-1 / W of a 1 KiB window); every history of 4/5 items over {frame with dictionary A, frame with dictionary B, plain frame, plain frame that needs leaked tables, plain frame that needs leaked content, unregistered id} on one decoder vs fresh decoders");
     run.sample(json!({"case": "lattice", "position": 3, "ll": 2, "reach": 4, "ml": 9, "meaning": "match starts 4 bytes before the end of the dictionary, crosses into the 5 output bytes and overlaps itself"}));
     run.assume("libzstd 1.5.7 (ZDICT trainer and decoder) defines valid dictionaries and frames");
     run.finish()
